@@ -1683,7 +1683,7 @@ fn fst_unequal(bound: u8, swap: bool) {
     core::mem::forget(sfs);
 }
 
-// @harness props=C06,C14 tier=quick group=f64 bounds=3x4,cells=0..1,tolerance=1e-9 timeout=1800
+// @harness props=C06,C14 tier=thorough group=f64 bounds=3x4,cells=0..1,tolerance=1e-9 timeout=1800
 #[kani::proof]
 #[kani::unwind(16)]
 #[kani::stub(f64::powi, powi_model)]
@@ -1691,7 +1691,7 @@ fn stat_def_fst_3x4() {
     fst_unequal(2, false)
 }
 
-// @harness props=C14,C06 tier=quick group=f64 bounds=4x3(transposed-3x4),cells=0..1,tolerance=1e-9 timeout=1800
+// @harness props=C14,C06 tier=thorough group=f64 bounds=4x3(transposed-3x4),cells=0..1,tolerance=1e-9 timeout=1800
 #[kani::proof]
 #[kani::unwind(16)]
 #[kani::stub(f64::powi, powi_model)]
